@@ -63,6 +63,7 @@ def ops():
     lazy("hash_based", lambda: (prs.hash_based, (list(SEQS), 1), {}))
     lazy("hash_based-hamming", lambda: (prs.hash_based, (tuple(SEQS), 1), {"custom_distance": "hamming"}))
     lazy("kdtree", lambda: (prs.kdtree, (list(SEQS), 2), {}))
+    lazy("kdtree-ndarray-compression", lambda: (prs.kdtree, (np.array(SEQS), 2), {"compression": 4, "output_type": "ndarray"}))
     lazy("kdtree-short-list", lambda: (prs.kdtree, (["CAF", "CAW"], 1), {}))
     lazy("kdtree-hamming", lambda: (prs.kdtree, (list(SEQS), 1), {"custom_distance": "hamming"}))
     lazy("kdtree-custom-ncpu2", lambda: (prs.kdtree, (list(SEQS), 2), {"custom_distance": _lev_half, "max_custom_distance": 0.5, "n_cpu": 2}))
@@ -83,6 +84,8 @@ def ops():
     lazy("pc_joint", lambda: (prs.pc_joint, (_df(), ["feat", "feat2"]), {}))
     lazy("pc_grouped_cross", lambda: (prs.pc_grouped_cross, (_df(), "group", "feat"), {}))
     lazy("pc_conditional", lambda: (prs.pc_conditional, (_df(), ["group"], "feat"), {"group_weights": [1, 2]}))
+    lazy("pc_conditional-ndarray-weights", lambda: (prs.pc_conditional, (_df(), "group", "feat"), {"group_weights": np.array([1.0, 3.0])}))
+    lazy("pc_n-ndarray", lambda: (prs.pc_n, (np.array([3, 1, 2, 0]),), {}))
     lazy("varpc_n", lambda: (prs.varpc_n, (np.array([3, 1, 2, 2]),), {}))
     lazy("stdpc", lambda: (prs.stdpc, (list(SEQS),), {}))
     lazy("stdpc_joint", lambda: (prs.stdpc_joint, (_df(), ["feat", "feat2"]), {}))
@@ -94,6 +97,8 @@ def ops():
     lazy("overlap", lambda: (prs.overlap, (["a", None, "b", "b"], {"b", "c"}), {}))
     lazy("overlap_coefficient", lambda: (prs.overlap_coefficient, (["a", "b"], pd.Series(["b", "c", None])), {}))
     lazy("subsample", lambda: (prs.subsample, ([3, 0, 2, 4], 4), {}), seed=7)
+    lazy("subsample-ndarray", lambda: (prs.subsample, (np.array([3, 0, 2, 4]), 9), {}), seed=7)
+    lazy("chao1-ndarray", lambda: (prs.chao1, (np.array([3, 0, 1]),), {}))
     lazy("powerlaw_sample", lambda: (prs.powerlaw_sample, (5, 2.0, 2.5), {}), seed=11)
     lazy("powerlaw_mle_alpha-exact", lambda: (prs.powerlaw_mle_alpha, ([1, 1, 2, 3, 7, 1],), {"method": "exact"}))
     lazy("powerlaw_mle_alpha-cc", lambda: (prs.powerlaw_mle_alpha, (np.array([1, 1, 2, 3, 7, 1]),), {"method": "continuitycorrection"}))
@@ -126,10 +131,12 @@ def ops():
     lazy("BetaCdrLevenshtein-pdist", lambda: (BetaCdrLevenshtein().calc_pdist_vector, (_df(),), {}))
     lazy("raise-TcrMetric-non-table", lambda: (AlphaCdr3Levenshtein().calc_cdist_matrix, (list(SEQS), list(SEQS)), {}))
     # ---- clustering / entropy
+    lazy("hamming_neighbors-ndarray-positions", lambda: ((lambda x, p: sorted(prs.hamming_neighbors(x, "AC", variable_positions=p))), ("AAC", np.array([1, 2])), {}))
     lazy("graph_clustering-cc", lambda: (prs.graph_clustering, ([(0, 1, 1), (1, 0, 1), (3, 4, 2), (4, 3, 2)], list(SEQS)), {}))
     lazy("graph_clustering-leiden", lambda: (prs.graph_clustering, (np.array([(0, 1, 1), (1, 0, 1), (1, 2, 1), (2, 1, 1)]), pd.Series(SEQS)), {"clustering": "leiden", "objective_function": "modularity"}))
     lazy("renyi2_entropy", lambda: (prs.renyi2_entropy, (_df(), "feat"), {}))
     lazy("renyi2_entropy-conditional", lambda: (prs.renyi2_entropy, (_df(), ["feat", "feat2"]), {"by": "group", "base": 10.0}))
+    lazy("renyi2_entropy-conditional-ndarray-weights", lambda: (prs.renyi2_entropy, (_df(), "feat"), {"by": ["group"], "group_weights": np.array([2, 1])}))
     lazy("stdrenyi2_entropy", lambda: (prs.stdrenyi2_entropy, (_df(), "feat"), {}))
     # ---- io / util
     lazy("standardize_dataframe", lambda: (prs.standardize_dataframe, (_raw_df(),), {"suppress_warnings": True}))
